@@ -235,7 +235,7 @@ func (x *FnCtx) stringConst(s string) *Term {
 	}
 	// string ids live far above object refs? keep them as small negative numbers: distinct from refs
 	t := x.tb.IntC(3000000 + id)
-	x.axiom(x.tb.Eq(x.tb.UF("str.len", x.intSort(), t), x.idx(int64(len(s)))))
+	x.axiom(x.tb.Eq(x.tb.UF("gstr.len", x.intSort(), t), x.idx(int64(len(s)))))
 	return t
 }
 
